@@ -691,3 +691,6 @@ def check(ctx):
     r6_manifest_is_overwritten(ctx)
     r7_cacheability(ctx)
     r9_doc_layer_hash_order(ctx)
+
+
+CLAUSE += '; the writer replaces the whole file (shared C01.R15)'
